@@ -9,7 +9,7 @@ PROPERTY = "C17"
 LEVEL = "exploration"
 RULE = ("History leg: Hypothesis-generated sequences (3-14 operations) over 4 module slots: add a fresh module {with its own "
         "_stackscope_install_glue_ | with built-in glue pending | both | neither | own glue that raises | built-in glue that "
-        "raises | a None entry | own glue that, when run, inserts a further glue-bearing helper module (which may be handled by the running extraction or the next one)}, remove, re-insert (same object or a new module object of the same name), extract; judged after "
+        "raises | a None entry | [during an extraction, by a hook that then calls extract_child(): the glue must have run when that nested extraction returns] | own glue that, when run, inserts a further glue-bearing helper module (which may be handled by the running extraction or the next one)}, remove, re-insert (same object or a new module object of the same name), extract; judged after "
         "every extract by a model (per module object: own glue unrun?; per name: built-in glue pending and not superseded?): the "
         "set of glue functions run by that extraction equals the model's, exactly one RuntimeWarning per failing glue, extract "
         "returns normally; over the history no glue function ran twice and never both kinds for one module. Schedule leg "
@@ -34,8 +34,19 @@ def histories():
         st.tuples(st.just("add"), st.integers(0, 3), st.sampled_from(KINDS)).map(list),
         st.tuples(st.just("remove"), st.integers(0, 3)).map(list),
         st.tuples(st.just("readd"), st.integers(0, 3), st.sampled_from(["same", "new"])).map(list),
-        st.just(["extract"]), st.just(["extract"]))
-    return st.lists(op, min_size=3, max_size=14).map(lambda ops: {"ops": ops + [["extract"]]})
+        st.just(["extract"]), st.just(["extract"]),
+        # [extract, nested]: a hook inserts a glue-bearing module mid-extraction and starts a nested extract_child()
+        st.tuples(st.just("nested"), st.integers(0, 3)).map(list))
+    return st.lists(op, min_size=3, max_size=14).map(lambda ops: {"ops": _expand(ops) + [["extract"]]})
+
+
+def _expand(ops):
+    out = []
+    for op in ops:
+        if op[0] == "nested":
+            out.append(["extract"])
+        out.append(op)
+    return out
 
 
 def schedules():
@@ -70,6 +81,8 @@ def check_history(ws, interps, case, out, ctx_open):
     nrem = sum(1 for o in case["ops"] if o[0] == "remove")
     next_ = sum(1 for o in case["ops"] if o[0] == "extract")
     classes = ["history"] + ["op." + o[0] for o in case["ops"]] + ["kind." + o[2] for o in case["ops"] if o[0] == "add"]
+    if hist_stats.get("nested_extractions_after_insertion"):
+        classes.append("nested_extraction_after_a_hook_inserted_a_module")
     if hist_stats.get("extract_after_insertion_by_glue"):
         classes.append("extraction_after_a_glue_function_inserted_a_glue_bearing_module")
     out.note_case(case, (nrem >= 1 and next_ >= 2) or hist_stats.get("extract_after_insertion_by_glue", 0) > 0,
